@@ -73,6 +73,35 @@ Definition check_fsr (impl_fixed : bool) (c : fsr_case) : verdict :=
 
 Definition fsr c a := {| fr_case := c; fr_active := a |}.
 
+(** ** file system provider with real event delivery (Start, fsnotify, watchFiles) *)
+Record fsw_case := {
+  fw_n : nat; fw_rej : list cid;
+  fw_hist : list fs_event;              (* the operations that were carried out, as changes + notifications *)
+  fw_obs : list (list pcall);           (* ACCEPTED calls per event of [fw_hist] *)
+  fw_start_err : bool;                  (* Start returned an error *)
+  fw_stalled : bool;                    (* the watcher stopped delivering events *)
+  fw_nops : nat }.                      (* operations the case wanted to carry out *)
+
+Definition count_notifies (h : list fs_event) : nat :=
+  length (filter (fun e => match e with FsNotify _ _ => true | _ => false end) h).
+
+Definition check_fsw (c : fsw_case) : verdict :=
+  let O := mk_oracle (fw_rej c) [] in
+  let run := snd (fs_run O true (fw_hist c)) in
+  let model := map (fun h => filter p_ok (h_calls h)) run in
+  (* Start fails exactly when the initial load meets a file it cannot load *)
+  let scan_err := existsb (fun eh => match fst eh with FsScan _ => h_err (snd eh) | _ => false end)
+                          (combine (fw_hist c) run) in
+  let complete := negb (fw_stalled c) &&
+                  (if fw_start_err c then true else Nat.eqb (count_notifies (fw_hist c)) (fw_nops c)) in
+  {| v_corr := list_eqb (list_eqb pcall_eqb) model (fw_obs c) && Bool.eqb scan_err (fw_start_err c) && complete;
+     v_prop := complete && Nat.eqb (length (fw_obs c)) (length (fw_hist c)) &&
+               trace_ok (accepts O) (mk_trace (fs_views (accepts O) (fw_hist c)) (fw_obs c));
+     v_guards := [] |}.
+
+Definition fwc n rej h o se st k :=
+  {| fw_n := n; fw_rej := rej; fw_hist := h; fw_obs := o; fw_start_err := se; fw_stalled := st; fw_nops := k |}.
+
 (** ** HTTP endpoint *)
 Record http_case := {
   hc_n : nat;
@@ -121,23 +150,43 @@ Definition check_blob (impl_fixed : bool) (c : blob_case) : verdict :=
 Definition blc nb nk rej h o := {| bc_nb := nb; bc_nk := nk; bc_rej := rej; bc_hist := h; bc_obs := o |}.
 
 (** ** Kubernetes *)
+(** observed per object handed to the handlers: the processor calls, or a handler panic *)
+Inductive kstep := KS (calls : list pcall) | KP.
+
 Record k8s_case := {
-  kc_rej : list cid;
+  kc_nn : nat;
+  kc_rej : list cid; kc_undel : list nat;
   kc_hist : list k8s_event;
-  kc_obs : list (list pcall) }.
+  kc_obs : list kstep }.
 
-Definition check_k8s (c : k8s_case) : verdict :=
-  let O := mk_oracle (kc_rej c) [] in
-  let model := snd (k8s_run O (kc_hist c)) in
-  {| v_corr := list_eqb (list_eqb pcall_eqb) model (kc_obs c);
-     v_prop := negb (k8s_wf (kc_hist c)) ||
-               (Nat.eqb (length (kc_obs c)) (length (kc_hist c)) &&
-                trace_ok (accepts O) (norm_trace (mk_trace (k8s_views (kc_hist c)) (kc_obs c))));
-     v_guards := [] |}.
+Definition kstep_eqb (a b : kstep) : bool :=
+  match a, b with
+  | KS x, KS y => list_eqb pcall_eqb x y
+  | KP, KP => true
+  | _, _ => false
+  end.
 
-Definition ko u cls gen c := {| k_uid := u; k_cls := cls; k_gen := gen; k_cid := c |}.
-Definition wA := WAdded. Definition wM := WModified. Definition wD := WDeleted.
-Definition k8c rej h o := {| kc_rej := rej; kc_hist := h; kc_obs := o |}.
+Definition kstep_calls (k : kstep) : list pcall := match k with KS c => c | KP => [] end.
+Definition kstep_panic (k : kstep) : bool := match k with KP => true | KS _ => false end.
+
+Definition check_k8s (f7 f8 : bool) (c : k8s_case) : verdict :=
+  let O := mk_oracle (kc_rej c) (kc_undel c) in
+  let nn := kc_nn c in
+  let model := map (fun x => match snd x with Some cs => KS cs | None => KP end) (snd (k8s_run O f7 f8 nn (kc_hist c))) in
+  let atoms := k8s_atoms_from nn ks_empty (kc_hist c) in
+  {| v_corr := list_eqb kstep_eqb model (kc_obs c);
+     (* no handler panics; every object handed over was handled; the calls track the latest valid content *)
+     v_prop := negb (k8s_wf nn (kc_hist c)) || negb (is_nil (kc_undel c)) ||
+               (negb (existsb kstep_panic (kc_obs c)) &&
+                Nat.eqb (length (kc_obs c)) (length atoms) &&
+                trace_ok (accepts O) (norm_trace (mk_trace (k8s_atom_views ks_empty atoms) (map kstep_calls (kc_obs c)))));
+     v_guards := guards [(7%Z, negb f7 && k8s_guard_F7 nn (kc_hist c));
+                         (8%Z, negb f8 && k8s_guard_F8 nn (kc_hist c))] |}.
+
+Definition ko n u cls gen c := {| k_name := n; k_uid := u; k_cls := cls; k_gen := gen; k_cid := c |}.
+Definition wA := KWatch WAdded. Definition wM := KWatch WModified. Definition wD := KWatch WDeleted.
+Definition wR := KRelist.
+Definition k8c nn rej undel h o := {| kc_nn := nn; kc_rej := rej; kc_undel := undel; kc_hist := h; kc_obs := o |}.
 
 (** ** short constructors for the generated case files *)
 Definition CA := CAbsent. Definition CE := CEmpty. Definition CI := CInvalid. Definition CV := CValid.
